@@ -74,7 +74,8 @@ def forward(wire: bytes, direction: str, tr: str, query_wire: bytes | None = Non
         d.recv(c.client, _frame(query_wire, tr))
         if d.crashed is None:
             if not d.out(c.server):
-                raise HarnessError("plain query was not forwarded upstream")
+                # the tree under test refused a plain, uncompressed, well-formed query: a finding, not a harness fault
+                return None, d
             d.recv(c.server, _frame(wire, tr))
         out = d.out(c.client)
     if tr == "tcp":
@@ -124,12 +125,18 @@ def check_case(case, ctx):
         query_wire = R.encode(q)
     msgs, drv = forward(wire, direction, tr, query_wire)
     where = "%s" % worst
+    if msgs is None:
+        logs = "; ".join(m for _l, m in drv.logs)[:300]
+        ctx.fail("well-formed-message-not-forwarded:plain-query",
+                 "the uncompressed query %s (same id/question as the response under test) did not reach the upstream "
+                 "server (log: %s)" % (query_wire.hex()[:400], logs))
+        return
     if drv.crashed is not None:
         ctx.fail(driver.crash_bucket(drv.crashed) + ":" + where, "layer raised %r while forwarding %s" % (drv.crashed, wire.hex()[:400]))
         return
     if len(msgs) != 1:
         logs = "; ".join(m for _l, m in drv.logs)[:300]
-        ctx.fail("not-forwarded:%s" % where if not msgs else "forwarded-%d-times" % len(msgs),
+        ctx.fail("well-formed-message-not-forwarded:%s" % where if not msgs else "forwarded-%d-times" % len(msgs),
                  "%d messages reached the other side for %s (log: %s)" % (len(msgs), wire.hex()[:400], logs))
         return
     out = msgs[0]
